@@ -27,6 +27,7 @@ import (
 	"github.com/cosmos/cosmos-sdk/x/params"
 	paramstypes "github.com/cosmos/cosmos-sdk/x/params/types"
 	paramsproposal "github.com/cosmos/cosmos-sdk/x/params/types/proposal"
+	upgradetypes "github.com/cosmos/cosmos-sdk/x/upgrade/types"
 
 	"github.com/kava-labs/kava/app"
 	bep3types "github.com/kava-labs/kava/x/bep3/types"
@@ -156,8 +157,9 @@ type c17Change struct {
 }
 
 type c17Content struct {
-	Kind    string      `json:"kind"` // text | param | cchange
+	Kind    string      `json:"kind"` // text | param | cchange | upgrade
 	Changes []c17Change `json:"changes,omitempty"`
+	H       int64       `json:"h,omitempty"` // upgrade: plan height
 }
 
 type c17Req struct {
@@ -252,6 +254,7 @@ type c17Snap struct {
 	next   int
 	bals   []int64
 	supply int64
+	plan   int64 // height of the stored upgrade plan, 0 = none (raw x/upgrade store)
 }
 
 func dec(s string) sdk.Dec { return sdk.MustNewDecFromStr(s) }
@@ -312,6 +315,8 @@ func (w *c17World) goContent(c c17Content) ctypes.PubProposal {
 	switch c.Kind {
 	case "text":
 		return govv1beta1.NewTextProposal("title", "description")
+	case "upgrade":
+		return upgradetypes.NewSoftwareUpgradeProposal("title", "description", upgradetypes.Plan{Name: "v2", Height: c.H})
 	case "cchange":
 		cc := ctypes.MustNewCommitteeChangeProposal("title", "description",
 			w.goCom(c17Com{ID: 1, Members: []int{0, 1, 2, 3, 4, 5}, Perms: []c17Perm{{Kind: "god"}}, Threshold: "0.1", Duration: 10, FPTP: true}))
@@ -470,6 +475,11 @@ func (w *c17World) snap() *c17Snap {
 		s.bals = append(s.bals, bk.GetBalance(w.ctx, a, c17Denom).Amount.Int64())
 	}
 	s.supply = bk.GetSupply(w.ctx, c17Denom).Amount.Int64()
+	if bz := w.ctx.KVStore(w.tApp.GetKVStoreKey(upgradetypes.StoreKey)).Get(upgradetypes.PlanKey()); bz != nil {
+		var pl upgradetypes.Plan
+		cdc.MustUnmarshal(bz, &pl)
+		s.plan = pl.Height
+	}
 	return s
 }
 
@@ -524,6 +534,9 @@ func (w *c17World) exec(op c17Op) (cls Class, err error, out c17Out) {
 			return nil
 		})
 	case "apply":
+		if op.Content.Kind == "upgrade" {
+			return ClassErr, fmt.Errorf("the upgrade handler is not driven directly"), out
+		}
 		cls, err = Atomically(w.ctx, func(ctx sdk.Context) error {
 			content := w.goContent(*op.Content)
 			if e := w.k.ValidatePubProposal(ctx, content); e != nil {
@@ -824,7 +837,7 @@ func (w *c17World) monitor(op c17Op, cls Class, out c17Out, before, after *c17Sn
 			}
 		}
 	case "submit", "vote":
-		if !paramsSame() {
+		if !paramsSame() || before.plan != after.plan {
 			return "submit-vote-apply-no-effects", "submit-or-vote-changed-params", op.Kind
 		}
 		for i := range before.bals {
@@ -836,9 +849,15 @@ func (w *c17World) monitor(op c17Op, cls Class, out c17Out, before, after *c17Sn
 			if op.Content.Kind == "cchange" {
 				return "committees-cannot-edit-committees", "committee-change-accepted-by-committee", ""
 			}
-			cctx, _ := w.ctx.CacheContext()
-			if e := w.handlerFor(*op.Content)(cctx, w.goContent(*op.Content)); e != nil {
-				return "failing-handler-rejected-at-submission", "stored-proposal-with-failing-handler", e.Error()
+			if op.Content.Kind == "upgrade" {
+				if op.Content.H <= 0 || op.Content.H < w.height {
+					return "failing-handler-rejected-at-submission", "stored-proposal-with-failing-handler", fmt.Sprintf("upgrade plan height %d at height %d", op.Content.H, w.height)
+				}
+			} else {
+				cctx, _ := w.ctx.CacheContext()
+				if e := w.handlerFor(*op.Content)(cctx, w.goContent(*op.Content)); e != nil {
+					return "failing-handler-rejected-at-submission", "stored-proposal-with-failing-handler", e.Error()
+				}
 			}
 			c := w.coms[op.Com]
 			w.pend[out.id] = &pendInfo{com: op.Com, deadline: w.now + c.Duration, content: *op.Content}
@@ -870,6 +889,13 @@ func (w *c17World) monitor(op c17Op, cls Class, out c17Out, before, after *c17Sn
 		}
 	case "begin":
 		if cls == ClassPanic {
+			// a stored proposal whose handler fails now must be closed as Invalid, not halt the chain
+			for pid, p := range w.pend {
+				if !w.closed[pid] && p.content.Kind == "upgrade" && p.content.H < w.height {
+					return "failing-handler-closed-invalid-without-halting", "begin-block-panicked-on-stale-proposal",
+						fmt.Sprintf("proposal %d: upgrade plan height %d, block height %d, deadline %d, t=%d", pid, p.content.H, w.height, p.deadline, w.now)
+				}
+			}
 			return "begin-blocker-never-panics", "begin-blocker-panic", ""
 		}
 		if cls != ClassOk {
@@ -936,8 +962,18 @@ func (w *c17World) monitor(op c17Op, cls Class, out c17Out, before, after *c17Sn
 				}
 			}
 		}
-		if passed == 0 && !paramsSame() {
+		if passed == 0 && (!paramsSame() || before.plan != after.plan) {
 			return "only-passed-proposals-change-params", "params-changed-without-passed-proposal", ""
+		}
+		for _, ev := range out.closed {
+			if p := w.pend[ev[0]]; p != nil && p.content.Kind == "upgrade" {
+				if ev[1] == 0 && p.content.H < w.height {
+					return "stale-upgrade-not-scheduled", "stale-upgrade-passed", fmt.Sprint(ev[0])
+				}
+				if ev[1] == 0 && after.plan != p.content.H && passed == 1 {
+					return "passed-upgrade-is-scheduled", "passed-upgrade-not-scheduled", fmt.Sprint(ev[0])
+				}
+			}
 		}
 		if passed == 1 {
 			p := w.pend[passedPid]
@@ -1027,6 +1063,8 @@ func (w *c17World) coqContent(c c17Content) string {
 		return "CText"
 	case "cchange":
 		return "CCommitteeChange"
+	case "upgrade":
+		return "(CUpgrade " + Zi(c.H) + ")"
 	}
 	var chs []string
 	for _, ch := range c.Changes {
@@ -1127,7 +1165,7 @@ func (w *c17World) coqObs(cls Class, out c17Out, before, after *c17Snap) string 
 	for i, b := range after.bals {
 		bl[i] = Zi(b)
 	}
-	return fmt.Sprintf("mkObs %s %s %s %s %s %s %s", cls.Coq(), o, List(dp), triples(after.props), triples(after.votes), Nat(after.next), List(bl))
+	return fmt.Sprintf("mkObs %s %s %s %s %s %s %s %s", cls.Coq(), o, List(dp), triples(after.props), triples(after.votes), Nat(after.next), List(bl), Zi(after.plan))
 }
 
 func (w *c17World) coqInit(setup c17Setup, s *c17Snap) string {
@@ -1145,7 +1183,7 @@ func (w *c17World) coqInit(setup c17Setup, s *c17Snap) string {
 	for i, b := range s.bals {
 		bl[i] = Zi(b)
 	}
-	return fmt.Sprintf("(mkState %s\n   %s\n   [] [] %s %s %s 0)", List(ps), List(cs), Nat(s.next), List(bl), Zi(s.supply))
+	return fmt.Sprintf("(mkState %s\n   %s\n   [] [] %s %s %s 0 %s %s)", List(ps), List(cs), Nat(s.next), List(bl), Zi(s.supply), Zi(w.height), Zi(s.plan))
 }
 
 // ------------------------------------------------------------ history runner
@@ -1254,6 +1292,13 @@ func c17Splits(w *c17World, op c17Op, cls Class, out c17Out, before, after *c17S
 				}
 			}
 			cnt.Inc(fmt.Sprintf("split:close:%s:%s", strings.ToLower(outcomeCoq[ev[1]]), when))
+			if p != nil && p.content.Kind == "upgrade" {
+				stale := "in-time"
+				if p.content.H < w.height {
+					stale = "stale"
+				}
+				cnt.Inc(fmt.Sprintf("split:upgrade:%s:%s:%s", strings.ToLower(outcomeCoq[ev[1]]), stale, when))
+			}
 			if p != nil {
 				if c, ok := w.coms[p.com]; ok && c.Token {
 					cnt.Inc("split:tally:token")
@@ -1272,7 +1317,8 @@ func c17Splits(w *c17World, op c17Op, cls Class, out c17Out, before, after *c17S
 var c17AllSplits = []string{
 	"allows:single:true", "allows:single:false", "allows:multi:true", "allows:multi:false", "allows:unknown-param:false", "allows:panic",
 	"close:passed:fptp-early", "close:passed:at-deadline", "close:failed:at-deadline", "close:invalid:at-deadline", "close:invalid:fptp-early",
-	"submit:stored:param", "submit:stored:text",
+	"submit:stored:param", "submit:stored:text", "submit:stored:upgrade",
+	"upgrade:invalid:stale:at-deadline", "upgrade:invalid:stale:fptp-early", "upgrade:passed:in-time:at-deadline", "upgrade:passed:in-time:fptp-early",
 	"doc:dup-key", "doc:case-variant", "doc:reordered-keys", "doc:reordered-records", "doc:added-absent-omitempty", "doc:dropped-allowed-key",
 	"doc:drop-and-add", "doc:dup-record", "doc:null-value", "doc:wrong-type", "doc:protected-changed", "doc:nested-changed", "doc:not-json",
 	"tally:token", "tally:member",
